@@ -119,9 +119,13 @@ def run(tier):
     vlib.build_harness(["dtlshs"])
     thorough = tier == "thorough"
     d = ck.dir
-    groups = FULL_CFGS if thorough else ROLE_CFGS
     adv_budget = 1
-    net = (["hold1", "drop"], 1) if thorough else ([], 0)
+    # (label, fpcs, fpss, idcs, idss, net kinds, net budget)
+    if thorough:
+        groups = [g + ([], 0) for g in FULL_CFGS] + \
+                 [(g[0] + "_net",) + g[1:] + (["hold1", "drop"], 1) for g in ROLE_CFGS]
+    else:
+        groups = [g + ([], 0) for g in ROLE_CFGS]
 
     # 1. the intended design (client authentication included): Auth, AuthKey, FailClosed hold for both roles
     for label, fpcs, fpss, idcs, idss in FULL_CFGS:
@@ -132,11 +136,11 @@ def run(tier):
     #    and FailClosed hold; schedules and allowed outcomes are emitted
     sched_rows, out_rows = [], []
     exhaustive = True
-    for label, fpcs, fpss, idcs, idss in groups:
+    for label, fpcs, fpss, idcs, idss, net_kinds, net_budget in groups:
         s1 = os.path.join(d, f"sched_{label}.ndjson")
         o1 = os.path.join(d, f"out_{label}.ndjson")
         r = _run_tlc(ck, f"pinned_{label}", spec="Spec", deviations=dc.OPEN_DEVIATIONS, adv_kinds=ADV, adv_budget=adv_budget,
-                     net_kinds=net[0], net_budget=net[1], max_ord=1, fpcs=fpcs, fpss=fpss, idcs=idcs, idss=idss,
+                     net_kinds=net_kinds, net_budget=net_budget, max_ord=1, fpcs=fpcs, fpss=fpss, idcs=idcs, idss=idss,
                      deadline=True, invariants=["AuthClient", "AuthKeyClient", "FailClosed", "KeyAgree", "EmitOutcome"],
                      emit="EmitSched", tags=("SCHED", "OUT"), sinks={"SCHED": s1, "OUT": o1}, workers=1, timeout=2400)
         exhaustive = exhaustive and r["finished"]
@@ -156,7 +160,19 @@ def run(tier):
         if rec not in allowed[dc.sched_id(o["cfg"], o["ops"])]:
             allowed[dc.sched_id(o["cfg"], o["ops"])].append(rec)
     scenarios = dc.scenarios_from_sched(sched_rows, TICK_MS, DEADLINE_MS)
-    outcomes = dc.run_scenarios(ck, scenarios, tier, nproc=16, timeout=900 if not thorough else 3000)
+    outcomes = dc.run_scenarios(ck, scenarios, tier, nproc=16 if not thorough else 12, timeout=900 if not thorough else 3000)
+    # An endpoint that is still New/Handshaking when the harness gave up (deadline + 12 s) was starved of CPU, not
+    # judged: those schedules are run again on their own, twice if need be, before anything is said about them.
+    def unsettled(o):
+        return "panic" not in o and any(o["obs"]["final"][e] not in ("Connected", "Failed", "Closed") for e in ("C", "S"))
+    for attempt in range(2):
+        redo = [i for i, o in enumerate(outcomes) if unsettled(o)]
+        if not redo:
+            break
+        ck.notes.append(f"{len(redo)} schedules had not settled when the harness stopped waiting (machine load); rerun {attempt + 1}")
+        again = dc.run_scenarios(ck, [outcomes[i]["scenario"] for i in redo], f"{tier}_redo{attempt}", nproc=2, timeout=1800)
+        for i, o in zip(redo, again):
+            outcomes[i] = o
 
     compared = 0
     unfired = 0
